@@ -312,6 +312,48 @@ var solvers = []solverSpec{
 	// z3 on the quantifier-based variant: lambda-defined rows make the
 	// array theory incomplete ("unknown" at once) for some goals
 	{"z3-new/gen", func(f string, t int) []string { return []string{fmt.Sprintf("-T:%d", t), f} }, "z3-new"},
+	// the goal from the ground assumptions alone (every quantified
+	// assumption left out): sound for proving, and what arithmetic goals
+	// need when quantified frame facts would otherwise swamp the solver
+	{"z3-new/noquant", func(f string, t int) []string { return []string{fmt.Sprintf("-T:%d", t), f} }, "z3-new"},
+}
+
+// writeNoQuant writes the variant of a query without quantified assumptions
+// (the goal, the last assert, is kept). Returns "" when there is none to drop.
+func writeNoQuant(file string) string {
+	b, err := os.ReadFile(file)
+	if err != nil {
+		return ""
+	}
+	lines := strings.Split(string(b), "\n")
+	goal := -1
+	for k := len(lines) - 1; k >= 0; k-- {
+		if strings.HasPrefix(lines[k], "(assert (not ") {
+			goal = k
+			break
+		}
+	}
+	if goal < 0 {
+		return ""
+	}
+	dropped := 0
+	var sb strings.Builder
+	for k, ln := range lines {
+		if k != goal && strings.HasPrefix(ln, "(assert ") && (strings.Contains(ln, "(forall ") || strings.Contains(ln, "(exists ")) {
+			dropped++
+			continue
+		}
+		sb.WriteString(ln)
+		sb.WriteString("\n")
+	}
+	if dropped == 0 {
+		return ""
+	}
+	p := strings.TrimSuffix(file, ".smt2") + ".noquant.smt2"
+	if os.WriteFile(p, []byte(sb.String()), 0o644) != nil {
+		return ""
+	}
+	return p
 }
 
 func runOne(ctx context.Context, sp solverSpec, file string, timeoutS int) solverResult {
@@ -378,6 +420,20 @@ func solve(file string, timeoutS int, all bool) (solverResult, []solverResult) {
 				}
 			}
 			f := file
+			if strings.HasSuffix(sp.name, "/noquant") {
+				g := writeNoQuant(file)
+				if g == "" {
+					ch <- solverResult{Status: "cancelled", Backend: sp.name}
+					return
+				}
+				r := runOne(ctx, sp, g, timeoutS)
+				if r.Status != "unsat" {
+					// fewer assumptions: only a proof counts
+					r.Status = "cancelled"
+				}
+				ch <- r
+				return
+			}
 			if strings.HasSuffix(sp.name, "/gen") {
 				g := strings.TrimSuffix(file, ".smt2") + ".gen.smt2"
 				if !fileExists(g) {
